@@ -205,6 +205,16 @@ def build_parameters(case, route, tmpdir=None):
         p = Parameters({s["label"]: Parameter(**s) for s in specs})
         f = os.path.join(tmpdir, f"p.{route}")
         save_parameters(p, f, allow_overwrite=True)
+        # the table was edited by hand afterwards: the value cells of the expression rows are out of date (a loaded
+        # set has every expression parameter at the value of its expression, whatever the file stored for it)
+        import pandas as pd
+
+        sep = "," if route == "csv" else "\t"
+        df = pd.read_csv(f, sep=sep, dtype=str, keep_default_na=False)
+        if "expression" in df.columns:
+            stale = df["expression"].astype(str).str.strip().ne("") & df["expression"].astype(str).ne("None")
+            df.loc[stale, "value"] = "987.25"
+            df.to_csv(f, sep=sep, index=False)
         return load_parameters(f)
     raise AssertionError(route)
 
